@@ -95,6 +95,7 @@ def build_tree(rng: random.Random, doc: Doc, items: List[Tuple[Any, Any]], leafk
     p_ind = shape.get("p_indirect_array", 0.1)
     shuffle = shape.get("shuffle_kids", False)
     kids_direct = shape.get("kids_direct", "none")        # "none" | "all" | "mixed"
+    lim_elems = shape.get("limit_elems_indirect", "none")  # "none" | "both" | "some"
     leaf_of: Dict[Any, int] = {}
     leaf_counter = [0]
 
@@ -166,6 +167,12 @@ def build_tree(rng: random.Random, doc: Doc, items: List[Tuple[Any, Any]], leafk
         if not is_root:
             lo, hi = its[0][0], its[-1][0]
             lim = [pdf_string(rng, lo), pdf_string(rng, hi)] if isinstance(lo, bytes) else [lo, hi]
+            # the two limits may themselves be indirect objects (both, or only one of them)
+            if lim_elems == "both" or (lim_elems == "some" and rng.random() < 0.5):
+                which = (0, 1) if lim_elems == "both" or rng.random() < 0.4 else (rng.randrange(2),)
+                for j in which:
+                    lim[j] = doc.add(lim[j])
+                feats["limits_with_indirect_elements"] = feats.get("limits_with_indirect_elements", 0) + 1
             entries.append(("Limits", maybe_indirect(lim, "limits")))
         rng.shuffle(entries)
         return dict(entries)
@@ -179,6 +186,8 @@ def random_shape(rng: random.Random, deep: bool = False) -> Dict[str, Any]:
     sh = _random_shape(rng, deep)
     r = rng.random()
     sh["kids_direct"] = "none" if r < 0.64 else "all" if r < 0.82 else "mixed"
+    r = rng.random()
+    sh["limit_elems_indirect"] = "none" if r < 0.7 else "both" if r < 0.82 else "some"
     return sh
 
 
@@ -626,6 +635,10 @@ def gen_doc(rng: random.Random, fam: str, opts: Optional[Dict[str, Any]] = None)
         if st["direct_kids"]:
             feats["nt_kids_direct_%s_depth%d" % ("all" if st["direct_kids"] == st["nodes"] - 1 else "mixed", st["depth"])] = 1
             stats["nt_direct_kids"] = st["direct_kids"]
+        if st["limit_elem_refs"]:
+            feats["nt_trees_limit_elems_indirect"] = 1
+            if st["leaves"] >= 2:
+                feats["nt_trees_limit_elems_indirect_2plus_leaves"] = 1
         names_dict = {"Dests": doc.add(root) if rng.random() < 0.6 else root}
         case["nt_root"] = root
     elif rng.random() < 0.3:
@@ -704,6 +717,8 @@ def gen_doc(rng: random.Random, fam: str, opts: Optional[Dict[str, Any]] = None)
         if st["direct_kids"]:
             feats["pl_kids_direct_%s_depth%d" % ("all" if st["direct_kids"] == st["nodes"] - 1 else "mixed", st["depth"])] = 1
             stats["pl_direct_kids"] = st["direct_kids"]
+        if st["limit_elem_refs"]:
+            feats["pl_trees_limit_elems_indirect"] = 1
         cat["PageLabels"] = doc.add(root) if rng.random() < 0.6 else root
         case["labels"] = R.page_labels(ranges, npages)
         case["label_styles"] = [str(R.range_of_page(ranges, i)["S"]) for i in range(npages)]
